@@ -94,7 +94,9 @@ class Core(object):
                     feature.name = k
                 eTypeParameters_add(feature)
             elif inspect.isfunction(feature):
-                if k.startswith('__'):
+                # (a private method '__m' sits in the class dict under its
+                # mangled name '_Class__m')
+                if k.startswith('__') or feature.__name__.startswith('__'):
                     continue
                 argspect = inspect.getfullargspec(feature)
                 args = argspect.args
